@@ -675,7 +675,7 @@ int disasm_68000(
           snprintf(instruction, length, "%s.%c %s, d%d", table_68000[n].instr, sizes[size], ea, reg);
           return len;
         default:
-          return -1;
+          return 2;
       }
     }
 
@@ -729,7 +729,7 @@ int disasm_68000(
   }
 
   strcpy(instruction, "???");
-  return -1;
+  return 2;
 }
 
 void list_output_68000(
